@@ -17,16 +17,23 @@ import os
 HERE = os.path.dirname(os.path.dirname(os.path.abspath(__file__)))
 HAVE_VHOSTS = os.path.exists(os.path.join(HERE, "lean", "IstioModel", "C12", "VHostsTheorems.lean"))
 THEOREMS = ["IstioModel.C12.Theorems"] + (["IstioModel.C12.VHostsTheorems"] if HAVE_VHOSTS else [])
-STREAMS = ("routes", "requests") + (("vhosts",) if HAVE_VHOSTS else ())
+STREAMS = ("routes", "requests") + (("vhosts", "rds") if HAVE_VHOSTS else ())
 
 WHAT = {
     "withoutHeaders-pattern-accepts-empty-and-header-absent":
         "withoutHeaders entry whose value pattern accepts the empty string: a request WITHOUT that header should satisfy the "
         "block (API: 'opposite meaning' of headers) but the generated matcher (invert_match + treat_missing_header_as_empty) rejects it",
+    "destination-port-of-service-not-on-listener-port":
+        "sidecar path: a VirtualService destination without explicit port whose (single-port) service does not expose the listener "
+        "port is resolved against a registry restricted to the listener port, so the cluster gets the LISTENER port instead of the "
+        "service's only port (API: 'if a service exposes only a single port it is not required to explicitly select the port')",
+    "mesh-decision": "end to end (virtual-host selection by authority, then first matching route) the real sidecar route configuration "
+                     "decides a request differently from the applicable VirtualService / default route",
     "alt-host-sound":
         "generateVirtualHostDomains emits an alternate host that is not a DNS abbreviation of the service hostname from the proxy's "
         "domain (e.g. the empty string for a service above the proxy domain)",
     "domains-unique": "a lower-cased domain occurs in two virtual hosts after dedupeDomains",
+    "most-specific-host": "MostSpecificHostMatch does not return the exact / longest matching wildcard host",
     "select-exact": "an authority equal to a kept domain does not select the virtual host owning that domain",
     "sortvhost-sound": "SortVHostRoutes changed the decision for a request satisfying the sortSafe side condition",
     "catchall-sound": "a route IsCatchAllRoute accepts does not match a request",
@@ -95,7 +102,7 @@ def oracle(ctx, stream, case_lines, rep):
 
 
 def nontrivial(case_ops, outs):
-    return any(l.startswith(("build", "req", "dom", "sel", "sortv", "dedupe", "selectvs")) for l in case_ops)
+    return any(l.startswith(("build", "req", "dom", "sel", "sortv", "msh", "rds", "rreq")) for l in case_ops)
 
 
 def run(ctx):
@@ -130,15 +137,16 @@ def run(ctx):
     cdir = os.path.join(os.path.dirname(os.path.dirname(os.path.abspath(__file__))), "harness", "corpus", ctx.pid)
     if os.path.isdir(cdir):
         for f in sorted(os.listdir(cdir)):
-            if f.endswith(".ops") and ".invalid." not in f and not f.startswith("vhosts."):
+            if f.endswith(".ops") and ".invalid." not in f and not f.startswith(("vhosts.", "rds.")):
                 rc, out = ctx.harness("validate", os.path.join(cdir, f))
                 last = out.strip().split("\n")[-1] if out.strip() else ""
                 if rc != 0 or not last.endswith("invalid 0"):
                     ctx.tie_broken("corpus-validity:" + f, "corpus file contains a VirtualService the real validator rejects:\n" + out[-2000:])
-    ctx.diff_stream("routes", ctx.n(1500, 40000), oracle=oracle, nontrivial=nontrivial)
-    ctx.diff_stream("requests", ctx.n(1500, 40000), oracle=oracle, nontrivial=nontrivial)
+    ctx.diff_stream("routes", ctx.n(5000, 60000), oracle=oracle, nontrivial=nontrivial)
+    ctx.diff_stream("requests", ctx.n(6000, 80000), oracle=oracle, nontrivial=nontrivial)
     if HAVE_VHOSTS:
-        ctx.diff_stream("vhosts", ctx.n(1500, 30000), oracle=oracle, nontrivial=nontrivial)
+        ctx.diff_stream("vhosts", ctx.n(4000, 40000), oracle=oracle, nontrivial=nontrivial)
+        ctx.diff_stream("rds", ctx.n(1500, 20000), oracle=oracle, nontrivial=nontrivial)
     # second line: the property oracle on every generated case, independent of the Lean model
     for stream in STREAMS:
         g = os.path.join(ctx.work, "%s.gen.ops" % stream)
